@@ -239,6 +239,61 @@ impl<F: RichField + Extendable<D>, const D: usize> CircuitBuilder<F, D> {
             )
         );
 
+        // Bound the final polynomial by the ACTUAL degree. The circuit carries the final polynomial
+        // of the largest supported degree; for a smaller degree only its first `2^r` coefficients may
+        // be non-zero, where `r = current_degree_bits - (arities of the active reduction steps)` is
+        // what the native verifier's shape validation enforces (`final_poly.len()`).
+        {
+            let arities = &params.reduction_arity_bits;
+            let total_arities: usize = arities.iter().sum();
+            // `degree_sub_one_bits_vec[pos]` is 1 iff `pos < current_degree_bits`; step `m` is active iff
+            // the bit at `step_bit[m]` is set, so the active steps are a prefix of the schedule.
+            let mut step_bit = Vec::with_capacity(arities.len());
+            let mut pos = degree_sub_one_bits_vec.len() - total_arities;
+            for &arity_bits in arities {
+                step_bit.push(pos);
+                pos += arity_bits;
+            }
+            // exactly_first[m] = 1 iff exactly the first `m` reduction steps are active.
+            let exactly_first: Vec<BoolTarget> = (0..=arities.len())
+                .map(|m| {
+                    let prev_active = if m == 0 {
+                        self._true()
+                    } else {
+                        degree_sub_one_bits_vec[step_bit[m - 1]]
+                    };
+                    let next_inactive = if m == arities.len() {
+                        self._true()
+                    } else {
+                        self.not(degree_sub_one_bits_vec[step_bit[m]])
+                    };
+                    self.and(prev_active, next_inactive)
+                })
+                .collect();
+            let one = self.one();
+            let zero_ext = self.zero_extension();
+            let max_final_bits = log2_strict(proof.final_poly.len());
+            for t in 0..max_final_bits {
+                // in_use = [r > t] = sum_m exactly_first[m] * [current_degree_bits > t + a_0 + .. + a_{m-1}]
+                let mut in_use = self.zero();
+                let mut shift = 0;
+                for m in 0..=arities.len() {
+                    if t + shift < degree_sub_one_bits_vec.len() {
+                        let term = self.and(exactly_first[m], degree_sub_one_bits_vec[t + shift]);
+                        in_use = self.add(in_use, term.target);
+                    }
+                    if m < arities.len() {
+                        shift += arities[m];
+                    }
+                }
+                let unused = self.sub(one, in_use);
+                for j in (1 << t)..(1 << (t + 1)) {
+                    let masked = self.scalar_mul_ext(unused, proof.final_poly.0[j]);
+                    self.connect_extension(masked, zero_ext);
+                }
+            }
+        }
+
         for (i, round_proof) in proof.query_round_proofs.iter().enumerate() {
             // To minimize noise in our logs, we will only record a context for a single FRI query.
             // The very first query will have some extra gates due to constants being registered, so
